@@ -41,6 +41,57 @@ def _space_job():
     return pass_space()
 
 
+def _contract_job(cases, table):
+    from harness.contractjobs import run_cases
+
+    return run_cases(cases, table)
+
+
+def contract_replay(ctx: Ctx) -> None:
+    """J2O_Contract: every (binding kind per result) x (return kind) lowering, replayed through the real dispatcher in 4 scopes."""
+    from harness.common import parse_tlc_values
+
+    r = run_tlc("MC_Contract", "MC_Contract.cfg", timeout=600, workers=2)
+    tlc_must_pass(r, "J2O_Contract")
+    ctx.add_tlc(r, "J2O_Contract (ContractSound, NoSpuriousRaise)")
+    if r.violated:
+        raise MachineryError(f"J2O_Contract: {r.violated} violated")
+    cleanup_tlc(r)
+    for dev in ("producer_means_connected", "no_postcheck", "count_only"):
+        rd = run_tlc("MC_Contract", f"MC_ContractDev_{dev}.cfg", timeout=600, workers=2, coverage=False)
+        if rd.violated != "ContractSound":
+            raise MachineryError(f"J2O_Contract deviation {dev} should violate ContractSound (non-vacuity), got {rd.violated!r}")
+        cleanup_tlc(rd)
+    ctx.extra["contract_deviations_rejected_by_tlc"] = 3
+    re_ = run_tlc("MC_Contract", "MC_ContractEmit.cfg", timeout=600, workers=1, coverage=False)
+    cases = parse_tlc_values(re_.output.splitlines())
+    cleanup_tlc(re_)
+    if len(cases) < 100:
+        raise MachineryError("J2O_Contract emitted too few cases: " + re_.output[-400:])
+    n = 6
+    res = run_tasks([{"fn": "harness.checks.c16:_contract_job", "args": {"cases": cases[i::n], "table": cases}, "timeout": 1800} for i in range(n)], nworkers=n, timeout=1800)
+    nrun = 0
+    for task, out in res:
+        if out.get("status") != "ok":
+            raise MachineryError(f"contract replay worker failed: {str(out)[:600]}")
+        for x in out["result"]["results"]:
+            nrun += 1
+            c = x["c"]
+            ctx.count(("contract", json.dumps(c, sort_keys=True), x["scope"]), nontrivial=x["predicted"] == "raised")
+            sig = {"engine": "lowering_contract", "scope": x["scope"], "bind": c["bind"][: c["n"]], "ret": c["ret"]}
+            if x["predicted"] == "raised" and x.get("observed") == "accepted":
+                ctx.violation({**sig, "what": "accepted_contract_violation"},
+                              f"a lowering that binds {c['bind'][:c['n']]} and returns {c['ret']} ({x['scope']}) breaks the output contract but to_onnx returned a model (J2O_Contract predicts a raise); model problems: {x.get('problems')}", x)
+            elif x["predicted"] == "accepted" and x.get("observed") == "raised":
+                ctx.violation({**sig, "what": "rejected_sound_lowering"},
+                              f"a lowering that binds {c['bind'][:c['n']]} and returns {c['ret']} ({x['scope']}) satisfies the contract but to_onnx raised: {x.get('error')}", x)
+            elif x.get("problems"):
+                ctx.violation({**sig, "what": "accepted_but_wrong"}, f"contract-conforming lowering ({x['scope']}) gave a wrong model: {x['problems']}", x)
+            if nrun % 200 == 1:
+                ctx.sample({"kind": "lowering_contract", "lowering": c, "scope": x["scope"], "predicted": x["predicted"], "observed": x.get("observed"), "error": x.get("error")})
+    ctx.extra["contract_lowerings_replayed"] = nrun
+
+
 def run(ctx: Ctx) -> None:
     from harness.checks import c05
 
@@ -116,6 +167,8 @@ def run(ctx: Ctx) -> None:
         if u["exported"] and u.get("problems") and not u.get("reference_unavailable"):
             ctx.violation({"engine": "unsupported_construct", "construct": u["construct"]}, f"{u['construct']} was exported instead of rejected and the model is wrong: {u['problems']}", u)
         ctx.sample({"kind": "unsupported_construct", "construct": u["construct"], "exported": u["exported"], "error": u.get("error")})
+
+    contract_replay(ctx)
 
     # D: TLC-emitted requests that involve faults / optimizer aborts
     vals = c05.emitted_requests(ctx)
